@@ -20,6 +20,8 @@ def add(name, crate, fn, args="", props=(), unwind=None, tier="quick", stubs=("f
     # contracts are tractable in both builds, so only those are generated twice (C20)
     if len(features) > 1 and not (name.startswith("leaf_") or name.startswith("cpr_") or name.startswith("dfr_") or name.startswith("rdd_")):
         features = (features[0],)
+    if crate == "adsb_deku" and not kani_flags:
+        kani_flags = ["-Z", "unstable-options", "--no-assertion-reach-checks", "--no-memory-safety-checks"]
     OBL.append(dict(name=name, crate=crate, fn=fn, args=args, props=list(props), unwind=unwind, dual_quick=(name in C20_QUICK_DUAL),
                     tier=tier, stubs=list(stubs), bounded=bounded, domain=domain,
                     features=list(features), timeout=timeout, functions=list(functions),
@@ -275,9 +277,9 @@ C01_QUICK = {"leaf_decode_id13", "leaf_mode_a_to_mode_c", "leaf_ac13_read", "lea
              "df00_b0_02", "df04_b0_20", "df05_b0_28", "df11_b0_5d", "df16_b0_80", "df19_b0_98", "df24_b0_c5", "df23_rej_b8",
              "df17_ca5_mec0", "df17_ca5_me58", "df17_ca5_me00", "df18_cf0_me58", "df20_mb00", "df21_mb30",
              "fc_df11_07", "fc_df11_32", "fc_df17_14", "fc_df19_32", "fc_df24_14",
-             "vel_calc_st1_p0", "vel_calc_st3_p0", "cpr_nl", "rd_single_df11", "rd_single_df24",
+             "vel_calc_st1_p0", "vel_calc_st3_p0", "cpr_nl", "rd_single_df11",
              "trk_entry_m0_k0", "trk_ident_df17", "trk_vel_df17", "trk_details", "trk_non_es_df11", "trk_non_es_df24",
-             "trk_other0_df17", "trk_pos_df17_trackf_pub"}
+             "trk_other0_df17", "trk_pos_df17_trackf_inv"}
 
 
 def select(prop, tier):
